@@ -46,6 +46,18 @@ func c04Min(rel string, free uint64) uint64 {
 		return free + 1
 	case "2*free":
 		return 2 * free
+	case "2^44": // 2^44 MB = 2^64 bytes: where a comparison in bytes would wrap
+		return 1 << 44
+	case "2^44+1":
+		return 1<<44 + 1
+	case "2^50":
+		return 1 << 50
+	case "2^62":
+		return 1 << 62
+	case "2^63":
+		return 1 << 63
+	case "2^64-1":
+		return ^uint64(0)
 	}
 	return 1 << 40
 }
@@ -216,12 +228,16 @@ func TestVerifC04(t *testing.T) {
 	}
 	run(c04dCase{Stage: "missing-dir"})
 	for _, st := range []string{"direct", "e2e"} {
-		for _, rel := range []string{"0", "1", "free-1", "free", "free+1", "2*free", "2^40"} {
+		rels := []string{"0", "1", "free-1", "free", "free+1", "2*free", "2^40", "2^44", "2^44+1", "2^50", "2^62"}
+		if st == "direct" {
+			rels = append(rels, "2^63", "2^64-1") // beyond what a TOML integer can hold
+		}
+		for _, rel := range rels {
 			run(c04dCase{Stage: st, Rel: rel})
 		}
 	}
-	r.Bounds["min_disk_space_positions"] = 7
+	r.Bounds["min_disk_space_positions"] = 13
 	r.Extra["cases_skipped_because_free_space_moved"] = skipped
-	r.Rule = "the real free-disk-space check: checkDiskSpace and CPTVFileRecorder.CheckCanRecord called directly, and the min-disk-space-mb setting end to end (generated config.toml -> ParseConfig -> handleConn -> files), with min-disk-space at 0, 1, free-1, free, free+1, 2*free and 2^40 MB relative to the free space measured with the same system call before and after the case (a case during which the measured value moved is repeated up to 5 times, then skipped - never reported; a wrong answer is reported only when three consecutive stable evaluations give it); plus a directory whose free space cannot be read. Expected: passes / records exactly when min-disk-space <= free. Non-trivial = every evaluated case."
+	r.Rule = "the real free-disk-space check: checkDiskSpace and CPTVFileRecorder.CheckCanRecord called directly, and the min-disk-space-mb setting end to end (generated config.toml -> ParseConfig -> handleConn -> files), with min-disk-space at 0, 1, free-1, free, free+1, 2*free, 2^40, 2^44, 2^44+1, 2^50, 2^62 (and 2^63, 2^64-1 for the direct calls) MB relative to the free space measured with the same system call before and after the case (a case during which the measured value moved is repeated up to 5 times, then skipped - never reported; a wrong answer is reported only when three consecutive stable evaluations give it); plus a directory whose free space cannot be read. Expected: passes / records exactly when min-disk-space <= free. Non-trivial = every evaluated case."
 	finish(t, r)
 }
